@@ -9,6 +9,13 @@ EXTENDS Integers, Sequences, FiniteSets, Reals, TLC, Linalg
 
 Dist2(x, y) == RSq(RSub(x, y))
 RQ(v, alpha, l, x, y) == RMul(v, RDiv(ROne, RPow(RAdd(ROne, RDiv(Dist2(x, y), RMul(R(2 * alpha), RSq(l)))), alpha)))
+\* mixture parameter 1/2: RQ = v / sqrt(1 + d^2 / l^2), rational exactly when 1 + (d/l)^2 is a rational square, i.e. when
+\* (d/l, 1, .) is a Pythagorean triple: d/l in {3/4, 4/3, 5/12, 12/5, 8/15, 15/8, ...}
+ISqrt(n) == CHOOSE k \in 0..n : k * k = n
+IsSquareQ(q) == (\E k \in 0..q[1] : k * k = q[1]) /\ (\E k \in 0..q[2] : k * k = q[2])
+SqrtQ(q) == <<ISqrt(q[1]), ISqrt(q[2])>>
+HalfBase(l, x, y) == RAdd(ROne, RDiv(Dist2(x, y), RSq(l)))
+RQHalf(v, l, x, y) == RDiv(v, SqrtQ(HalfBase(l, x, y)))
 RBFExponent(l, x, y) == RDiv(Dist2(x, y), RMul(R(2), RSq(l)))
 \* the crate as first read (regression witness): exponent +alpha
 RQWrongSign(v, alpha, l, x, y) == RMul(v, RPow(RAdd(ROne, RDiv(Dist2(x, y), RMul(R(2 * alpha), RSq(l)))), alpha))
